@@ -212,12 +212,13 @@ def check_generic(pane, res):
             except Exception as e:  # noqa
                 got = type(e).__name__
             same_family = na.startswith('G') and nb.startswith('G')
+            # (a real subclass of a subscripted generic is a class of its own: equal to itself only)
             want = (va == vb) if (same_family or na == nb) else False
             res['evals'] += 1
             res['validated'] += 1
             res['transitions'] += 1
             res['nontrivial'].add(f"generic|{na}|{nb}")
-            if got != want and not ('Sub' in na + nb and na != nb):
+            if got != want:
                 core.add_violation(res, {'kind': 'generic_equality', 'a': na, 'b': nb},
                                    f"{na}({va}) == {nb}({vb}) is {got}, expected {want} (equality compares the class ignoring generic parameters)",
                                    {'generic': True, 'a': na, 'b': nb}, 2)
@@ -288,7 +289,8 @@ def check_derived(pane, res):
 def check_histories(pane, res, depth):
     from pane.errors import ConvertError
     H = grammar.pin(type('Hist', (pane.PaneBase,), {'__annotations__': {'n': int, 'items': t.List[int], 'tag': str}, 'n': 0,
-                                                   'items': pane.field(default_factory=list), 'tag': 't', '__module__': 'mc.generated'},
+                                                   'items': pane.field(default_factory=list), 'tag': pane.field(default='t', exclude=True),   # (kept out of OUTPUT only)
+                                                   '__module__': 'mc.generated'},
                          frozen=False))
     starts = {'Cls()': lambda: H(), 'Cls(n=1)': lambda: H(n=1), 'Cls(items=[1])': lambda: H(items=[1]),
               'from_data({})': lambda: pane.from_data({}, H), "from_data({'n':2,'tag':'u'})": lambda: pane.from_data({'n': 2, 'tag': 'u'}, H)}
